@@ -574,3 +574,23 @@ seeded('C02', 'cancel_event skips events at the current time', 'R2.6',
        [('simulator', "        self._eventlist.remove(event)", "        if event.time <= self._simulator_time:\n            return\n        self._eventlist.remove(event)")])
 seeded('C07', 'streams split with key-view set algebra', 'R7.1',
        [('streams', "        for key in streams.keys():\n            self.update_seed(key, streams[key], replication_nr)", "        for key in streams.keys() & streams.keys():\n            self.update_seed(key, streams[key], replication_nr)")], key='iterate')
+seeded('C02', 'relative delay subtracted from the clock', 'R2.3',
+       [('simulator', "        time = self._simulator_time + delay\n", "        time = self._simulator_time - delay\n")], key='schedule_event_rel')
+seeded('C02', 'schedule_event_abs drops the priority', 'R2.7',
+       [('simulator', "        return self.schedule_event(SimEvent(time,\n                 target, method, priority, **kwargs))\n\n    def cancel_event", "        return self.schedule_event(SimEvent(time,\n                 target, method, **kwargs))\n\n    def cancel_event")], key='schedule_event_abs')
+seeded('C09', 'minimum updated with the wrong comparison', 'R9.7',
+       [('statistics', "        self._sum += value\n        if value < self._min:\n            self._min = value", "        self._sum += value\n        if value > self._min:\n            self._min = value")], key='_min')
+seeded('C09', 'sum accumulates the deviation instead of the value', 'R9.7',
+       [('statistics', "        self._sum += value\n        if value < self._min:", "        self._sum += delta\n        if value < self._min:")], key='_sum')
+seeded('C09', 'maximum only updated when the minimum was not', 'R9.7',
+       [('statistics', "        self._sum += value\n        if value < self._min:\n            self._min = value\n        if value > self._max:", "        self._sum += value\n        if value < self._min:\n            self._min = value\n        elif value > self._max:")], key='_max')
+benign('C09', 'min/max via builtins',
+       [('statistics', "        self._sum += value\n        if value < self._min:\n            self._min = value\n        if value > self._max:\n            self._max = value", "        self._sum += value\n        if self._min > value:\n            self._min = value\n        if self._max < value:\n            self._max = value")])
+seeded('C10', 'zero-weight observations are not counted', 'R10.7',
+       [('statistics', "        self._n += 1\n        if weight == 0.0:\n            return\n        self._n_nonzero += 1", "        if weight == 0.0:\n            return\n        self._n += 1\n        self._n_nonzero += 1")], key='_n')
+seeded('C10', 'weighted sum ignores the weight', 'R10.7',
+       [('statistics', "        self._weighted_sum += weight * value;", "        self._weighted_sum += value;")], key='_weighted_sum')
+seeded('C10', 'total weight counts zero-weight observations as one', 'R10.7',
+       [('statistics', "        self._n += 1\n        if weight == 0.0:\n            return\n", "        self._n += 1\n        if weight == 0.0:\n            self._sum_of_weights += 1.0\n            return\n")], key='_sum_of_weights')
+seeded('C12', 'next_float returns 1 - u (range (0, 1])', 'R12.6',
+       [('streams', "        return self._random.random()\n", "        return 1.0 - self._random.random()\n")], key='next_float')
